@@ -407,3 +407,11 @@ func shortStack() string {
 	}
 	return strings.Join(lines, "\n")
 }
+
+// bound: the size up to which a rule unrolls a collection — wider in the thorough tier.
+func (c *Ctx) bound(quick, thorough int) int {
+	if c.Tier == "thorough" {
+		return thorough
+	}
+	return quick
+}
